@@ -35,9 +35,16 @@ var solverSpecs = []solverSpec{
 
 var solverSem = make(chan struct{}, 16)
 
-func runOne(ctx context.Context, sp solverSpec, script string) *SolverResult {
-	solverSem <- struct{}{}
+func runOne(pctx context.Context, sp solverSpec, script string, timeout time.Duration) *SolverResult {
+	select {
+	case solverSem <- struct{}{}:
+	case <-pctx.Done():
+		return &SolverResult{Status: "timeout", Solver: sp.name}
+	}
 	defer func() { <-solverSem }()
+	// the budget counts from the moment the solver actually starts
+	ctx, cancel := context.WithTimeout(pctx, timeout)
+	defer cancel()
 	start := time.Now()
 	cmd := exec.CommandContext(ctx, sp.args[0], sp.args[1:]...)
 	cmd.Stdin = strings.NewReader(sp.pre + script)
@@ -80,7 +87,7 @@ func parseModel(out string) map[string]string {
 
 // Solve races the installed solvers on one script; the first definitive answer wins.
 func Solve(script string, timeout time.Duration, which []string) *SolverResult {
-	ctx, cancel := context.WithTimeout(context.Background(), timeout)
+	ctx, cancel := context.WithCancel(context.Background())
 	defer cancel()
 	ch := make(chan *SolverResult, len(solverSpecs))
 	n := 0
@@ -94,8 +101,24 @@ func Solve(script string, timeout time.Duration, which []string) *SolverResult {
 		if !use {
 			continue
 		}
+		delay := time.Duration(0)
+		switch n {
+		case 1:
+			delay = 1500 * time.Millisecond
+		case 2:
+			delay = 4 * time.Second
+		}
 		n++
-		go func(sp solverSpec) { ch <- runOne(ctx, sp, script) }(sp)
+		go func(sp solverSpec, delay time.Duration) {
+			// staged race: the later solvers only start if the first has not answered yet
+			select {
+			case <-time.After(delay):
+			case <-ctx.Done():
+				ch <- &SolverResult{Status: "timeout", Solver: sp.name}
+				return
+			}
+			ch <- runOne(ctx, sp, script, timeout)
+		}(sp, delay)
 	}
 	var last *SolverResult
 	total := 0.0
@@ -172,9 +195,43 @@ func (ex *Exec) Discharge(timeout time.Duration, keepScripts string) []*OblResul
 		wg.Add(1)
 		go func(j job) {
 			defer wg.Done()
-			sr := Solve(j.script, timeout, nil)
 			r := results[j.i]
-			r.Solver, r.Seconds, r.Raw = sr.Solver, sr.Seconds, sr.Raw
+			o := r.Obl
+			// staged: many obligations follow from the goal alone or from the path condition alone;
+			// fewer assumptions is always sound for an unsat answer.
+			quick := 4 * time.Second
+			if timeout < quick {
+				quick = timeout
+			}
+			// goal-only validity is shared by every obligation with the same goal term
+			ex.smtMu.Lock()
+			gv, seen := ex.goalValid[o.Goal]
+			ex.smtMu.Unlock()
+			if !seen {
+				sg := ts.SMTScriptLocked(&ex.smtMu, []*Term{ts.Not(o.Goal)}, nil)
+				sr := Solve(sg, quick, []string{"z3-new"})
+				gv = sr.Status == "unsat"
+				ex.smtMu.Lock()
+				ex.goalValid[o.Goal] = gv
+				ex.smtMu.Unlock()
+				r.Seconds += sr.Seconds
+			}
+			if gv {
+				r.Status, r.Solver = "proved", "z3-new(goal-only)"
+				return
+			}
+			if o.NFacts > 0 {
+				s0 := ts.SMTScriptLocked(&ex.smtMu, []*Term{o.PC, ts.Not(o.Goal)}, nil)
+				if sr := Solve(s0, quick, []string{"z3-new"}); sr.Status == "unsat" {
+					r.Status, r.Solver, r.Seconds = "proved", sr.Solver+"(pc-only)", sr.Seconds
+					return
+				} else {
+					r.Seconds += sr.Seconds
+				}
+			}
+			sr := Solve(j.script, timeout, nil)
+			r.Solver, r.Raw = sr.Solver, sr.Raw
+			r.Seconds += sr.Seconds
 			switch sr.Status {
 			case "unsat":
 				r.Status = "proved"
